@@ -299,7 +299,7 @@ def corpus_findings(pid, suite, detectors):
 
 
 RENAME_WITNESS = ('(strong_rename_issues ((rule (basic ("p" ())) ()) (rule (basic ("q" ())) ((cmp lt (sym "tp_") (sym "tp"))))) '
-                  '((rule (basic ("p" ())) ()) (rule (basic ("q" ())) ())) sequential universal tau_star false false 64)')
+                  '((rule (basic ("p" ())) ()) (rule (basic ("q" ())) ())) sequential universal tau_star false false 256)')
 
 
 def c03_extra(tier, seed, outdir, broken, violations, findings_seen):
@@ -390,11 +390,15 @@ def c18_extra(tier, seed, outdir, broken, violations, findings_seen):
     stats, failures = cli.determinism_exploration(60 if tier == "quick" else 1500, seed)
     for f in failures[:10]:
         violations.append(dict(f, property="C18", kind="output differs between two fresh processes"))
-    # fixpoint runs that hit the pass bound are reported here (termination is not proved)
+    ostats, ofail = cli.simplify_order_check(seed)
+    stats.update(ostats)
+    for f in ofail[:5]:
+        violations.append(dict(f, property="C18", kind="CLI simplify output is not the model's per-formula result in input order"))
+    # fixpoint runs that hit the pass bound (far above anything the generators produce) are reported here
     imp = (outdir / "simplify.impl")
     timeouts = sum(1 for l in imp.read_text().splitlines() if l.startswith("(timeout")) if imp.exists() else 0
     if timeouts:
-        violations.append({"property": "C18", "kind": "fixpoint simplification exceeded the pass bound of 64 on the implementation", "count": timeouts})
+        violations.append({"property": "C18", "kind": "fixpoint simplification exceeded the pass bound of 256 on the implementation", "count": timeouts})
     stats["fixpoint_runs_hitting_pass_bound"] = timeouts
     return stats
 
@@ -453,7 +457,7 @@ PROPS = {
         "pins": [],
         "rule": "seeded adversarial formulas (shadowed/repeated binders, X = t(X), duplicated conjuncts, mixed-sort equalities, the shapes each "
                 "rewrite looks for) + corpus; (a) each of the 15 rewrites at the root, (b) each portfolio concatenation x {shallow, recursive, "
-                "fixpoint (pass bound 64)}, (c) Formula::substitute; exact tree equality with the Lean model; non-trivial = output differs from input",
+                "fixpoint (pass bound 256)}, (c) Formula::substitute; exact tree equality with the Lean model; non-trivial = output differs from input",
         "level_text": "Full. Truth-value claim for all three portfolios. portfolio_sound_intuitionistic/_ht: HT-equivalence for every strategy, pass bound, formula, "
                       "interpretation with H subset T, world, assignment (each of the 10 INTUITIONISTIC rewrites proved). portfolio_sound_classic: classical equivalence, "
                       "unconditional - all five CLASSIC rewrites proved (remove_double_negation, substitute_defined_variables, restrict_quantifier_domain [both forms, "
@@ -464,7 +468,7 @@ PROPS = {
         "technique": "Lean 4 proofs (per-rewrite HT/classical equivalence, congruence, composition, iteration) + differential correspondence",
         "design_ref": "DESIGN.md 6/C07",
         "trusted_base": COMMON_TRUST,
-        "assumptions": COMMON_ASSUME + ["fixpoint runs are compared up to a pass bound of 64; a run hitting the bound is reported under C18"],
+        "assumptions": COMMON_ASSUME + ["fixpoint runs are compared up to a pass bound of 256; a run hitting the bound is reported under C18"],
     },
     "C17": {
         "search": search_generic,
@@ -485,7 +489,7 @@ PROPS = {
     "C18": {
         "extra": c18_extra,
         "suites": [("simplify", 1500, 40000)],
-        "rule": "as C07(b): every portfolio x strategy on seeded formulas; the harness runs its own bounded fixpoint loop (64 passes) and, when it converges, "
+        "rule": "as C07(b): every portfolio x strategy on seeded formulas; the harness runs its own bounded fixpoint loop (256 passes) and, when it converges, "
                 "the real Apply::apply_fixpoint, and requires equal results; any timeout is reported",
         "level_text": "Termination and idempotence: full for the model. fixpoint_terminates - for every portfolio and every formula some pass leaves the formula unchanged (each of the 15 rewrites either "
                       "returns its argument or strictly decreases a lexicographic measure: a polynomial interpretation with products for and/or [invariant under re-nesting, decreases when a quantifier moves out], "
@@ -532,7 +536,7 @@ PROPS = {
         "technique": "Lean 4 proof by composition (gamma_correct + decomposition theorems) + end-to-end differential correspondence",
         "design_ref": "DESIGN.md 6/C03",
         "trusted_base": COMMON_TRUST,
-        "assumptions": COMMON_ASSUME + ["fixpoint simplification inside the pipeline is compared up to a pass bound of 64"],
+        "assumptions": COMMON_ASSUME + ["fixpoint simplification inside the pipeline is compared up to a pass bound of 256"],
     },
     "C04": {
         "suites": [("completion", 1500, 30000), ("analyze", 800, 20000)],
@@ -577,10 +581,10 @@ PROPS = {
         "assumptions": COMMON_ASSUME,
     },
     "C19": {
-        "suites": [("strong", 400, 8000), ("break_eq", 1000, 20000), ("external", 300, 6000), ("decompose", 2000, 50000)],
-        "rule": "as C03 (all flag combinations) + break_equivalences_formula on seeded formulas with equivalences under universal prefixes",
+        "suites": [("strong", 400, 8000), ("break_eq", 1000, 20000), ("external", 300, 6000), ("decompose", 2000, 50000), ("simplify", 500, 10000), ("substitute", 800, 15000)],
+        "rule": "as C03 (all flag combinations) + break_equivalences_formula on seeded formulas with equivalences under universal prefixes + the simplification portfolios and Formula::substitute (the simplify flag's part of the claim, as C07/C17)",
         "level_text": "Full for decomposition and eq-break: independent_refutes, sequential_refutes, decomposition_invariant, break_equiv(_ht), families_invariant proved for all problems, "
-                      "interpretations and assignments; the simplify flag reduces to C07 (map_equiv_all), whose classic part is partial.",
+                      "interpretations and assignments; the simplify flag reduces to C07 (map_equiv_all), proved for all three portfolios.",
         "level_note": PROOF_NOTE,
         "technique": "Lean 4 proof (list induction over the decomposition loops, binder characterisation) + differential correspondence",
         "design_ref": "DESIGN.md 6/C19",
@@ -624,7 +628,7 @@ PROPS = {
         "assumptions": COMMON_ASSUME,
     },
     "C12": {
-        "suites": [("strong_text", 300, 6000)],
+        "suites": [("strong_text", 300, 6000), ("external_text", 150, 3000)],
         "rule": "whole problem texts of seeded strong-equivalence tasks: preamble (tied to the Lean transcription), symbol_order axioms, transition axioms vs the model, text equality",
         "level_text": "Full for the model: each of the 15 preamble axioms is a theorem about the standard structure, collected as std_satisfies_preamble : Preamble (stdStruct I) over the same TFF structure type that C06 interprets renderings in; symbol_chain_true / symbol_chain_covers / chain_distinct "
                       "(ordering axioms form a strictly increasing chain over exactly the problem's symbols); transition_true (h-implies-t axioms hold in every interpretation arising from H subset T).",
@@ -656,7 +660,7 @@ PROPS = {
         "technique": "Lean 4 (pipeline model, counterexample theorems by kernel evaluation, decomposition theorems) + end-to-end differential correspondence",
         "design_ref": "DESIGN.md 6/C02",
         "trusted_base": COMMON_TRUST,
-        "assumptions": COMMON_ASSUME + ["fixpoint simplification inside the pipeline is compared up to a pass bound of 64"],
+        "assumptions": COMMON_ASSUME + ["fixpoint simplification inside the pipeline is compared up to a pass bound of 256"],
     },
     "C13": {
         "suites": [("external", 500, 10000)],
